@@ -219,3 +219,45 @@ Proof.
   destruct (start_ok_sound mc Hm) as [c [m Hr]].
   exact (agree_session FN [] [] items _ _ st mc c m (tabs_any FN _ _ Hinc) (sem_b_sound st Hs) Hr (wrel_b_sound st mc Hw) Hall).
 Qed.
+
+(* ================= two machines: the premises of the two-machine session theorem ================= *)
+Require Import Calc.StmtModes.
+
+Definition wrel_mb (mc1 mc2 : machine) : bool :=
+  let G1 := v_globals (mc_vm mc1) in
+  let G2 := v_globals (mc_vm mc2) in
+  forallb (fun k => is_bname (tab_of G1) k || veq (gval G1 k) (gval G2 k)) (map fst G1 ++ map fst G2) &&
+  sl_eqb (v_out (mc_vm mc1)) (v_out (mc_vm mc2)) && sl_eqb (v_in (mc_vm mc1)) (v_in (mc_vm mc2)) &&
+  forallb (fun nm => Bool.eqb (fun_eqb (gval G1 nm) (ft_val (tab_of G1) nm)) (fun_eqb (gval G2 nm) (ft_val (tab_of G2) nm))) fun_names.
+
+Theorem wrel_mb_sound mc1 mc2 :
+  wrel_mb mc1 mc2 = true ->
+  wrel (self_tab mc1) (self_tab mc2) [] [] (wof (mc_vm mc1)) (wof (mc_vm mc2)).
+Proof.
+  unfold wrel_mb, self_tab. cbv zeta. intros H. apply andb_prop in H. destruct H as [H Hb]. apply andb_prop in H. destruct H as [H Hi].
+  apply andb_prop in H. destruct H as [Hg Ho].
+  constructor; cbn [wof w_glob w_out w_in].
+  - intros g Hn.
+    destruct (in_dec String.string_dec g (map fst (v_globals (mc_vm mc1)) ++ map fst (v_globals (mc_vm mc2)))) as [Hin|Hout].
+    + rewrite forallb_forall in Hg. specialize (Hg g Hin). rewrite Hn in Hg. cbn [orb] in Hg. exact (veq_sound _ _ Hg).
+    + rewrite !gval_not_key; [reflexivity| |]; intros X; apply Hout; apply in_or_app; [right|left]; exact X.
+  - exists (v_out (mc_vm mc1)). rewrite app_nil_r. split; [reflexivity|]. symmetry. exact (sl_eqb_sound _ _ Ho).
+  - exact (sl_eqb_sound _ _ Hi).
+  - intros nm Hnm. rewrite forallb_forall in Hb.
+    assert (Hin : In nm fun_names).
+    { destruct (tab_names _ nm Hnm) as [->|[->|[->|[->|[->|[->|[->| ->]]]]]]]; cbn; tauto. }
+    exact (Bool.eqb_prop _ _ (Hb nm Hin)).
+Qed.
+
+Definition start_ok_modes (mc1 mc2 : machine) : bool := start_ok mc1 && start_ok mc2 && wrel_mb mc1 mc2.
+
+(* two machines that pass the checks — one continued in value mode, the other in file mode — run every list of
+   qualifying trees as the two-machine session theorem says *)
+Theorem checked_modes_are_covered FN mc1 mc2 items :
+  start_ok_modes mc1 mc2 = true -> incl other_builtins FN -> Forall (item_ok2 FN) items ->
+  pair false true [] [] (self_tab mc1) (self_tab mc2) mc1 mc2 items.
+Proof.
+  unfold start_ok_modes. intros H Hinc Hall. apply andb_prop in H. destruct H as [H Hw]. apply andb_prop in H. destruct H as [H1 H2].
+  destruct (start_ok_sound mc1 H1) as [c1 [m1 Hr1]]. destruct (start_ok_sound mc2 H2) as [c2 [m2 Hr2]].
+  exact (pair_session FN false true [] [] items _ _ mc1 c1 m1 mc2 c2 m2 (tabs_any FN _ _ Hinc) Hr1 Hr2 (wrel_mb_sound mc1 mc2 Hw) Hall).
+Qed.
